@@ -2,6 +2,7 @@
 
 use crate::runner::{entry, Entry};
 
+pub mod c01;
 pub mod c03;
 pub mod c07;
 pub mod c08;
@@ -14,6 +15,14 @@ pub mod c17;
 
 pub fn registry() -> Vec<Entry> {
     vec![
+        entry::<c01::C01>(
+            "C01",
+            900,
+            3000,
+            150_000,
+            "ABI-safe but internally wild programs (1-4 functions: multi-step and nested sp adjustment, re-used stack slots, sw zero, store-then-redefine-then-reload, sub-word stack accesses, red-zone stores across calls, arithmetic on sp copies, folding chains over all operators with boundary constants, la + loads/stores, ecalls with results, mv into a7, diamonds, counted loops, early returns, recursion) x 3-5 vectors of initial registers / memory / environment results, executed on the reference machine. At every step every claim in the node's in/out value maps of the kinds the statement names (constant, label address, entry value + constant; for registers and stack slots relative to the entry sp) is compared with the machine state of the current activation. Non-trivial = at least one derived claim (not an entry seed) was checked; distinct = different program + inputs.",
+            &["reference machine", "callees are ABI-safe by construction; a trace is cut where a function writes at/above its entry sp", "RARS environment-call register table taken from the analyzer", "other value kinds (register+scalar, memory-at, CSR) are not claims in the sense of the statement"],
+        ),
         entry::<c03::C03>(
             "C03",
             700,
